@@ -174,18 +174,7 @@ def setup_inputs(chk, pid):
                 chk.ob("C04.R6", ok, CORE, host, "input-stored-untransformed:%s" % w.field, "input data is stored as supplied: a column of the argument, or the node's own empty column",
                        where=w.where, expected="universe[name] / kwargs[key][name] / self.data[col] / None", found=short(leaf, 140), sample={"field": w.field, "value": short(leaf, 100)})
     chk.floor_count("C04.R6:input series stored in setup", n, 4)
-    P = chk.summary("bt/backtest.py", "Backtest", "_process_data", host="Backtest")
-    for e in P.events:
-        if e.kind == "store" and e.loops:
-            v = e.value
-            ok = v[0] == "call" and v[1] in ("pd.concat",) and v[2] and v[2][0][0] == "list" and len(v[2][0]) == 3
-            if ok:
-                # the second piece is the entry itself, whole and unshifted: d[k] or the value of the (k, value) pair being iterated
-                old = v[2][0][2]
-                idx = e.index
-                ok = (old[0] == "sub" and canon(old[2]) == canon(idx)) or (old[0] == "item" and old[2] == 1 and isinstance(idx, tuple) and idx[0] == "item" and idx[2] == 0 and canon(idx[1]) == canon(old[1]))
-            chk.ob("C04.R6", ok, "bt/backtest.py", "Backtest._process_data", "additional-data-only-prepended", "additional data is only given the synthetic first row: rows are never shifted", where=e.where,
-                   found=short(v, 140))
+    backtest_rules.additional_data_only_prepended(chk)
 
 
 def _plain_selection(v):
@@ -221,3 +210,10 @@ def run(chk):
     setup_inputs(chk, "C04")
     core_rules.accessor_rules(chk, "C04")
     backtest_rules.run_loop(chk, "C04")
+    # positional reads through a helper: the row of a unit-risk table is the location of now in THAT table's index
+    from .algo_equiv import check_equiv
+    from .c20 import REFS as RISK_REFS
+    for cls, name, src, what in RISK_REFS:
+        if (cls, name) in (("HedgeRisks", "__call__"), ("UpdateRisk", "_set_risk_recursive")):
+            check_equiv(chk, "C20.R2" if cls == "HedgeRisks" else "C20.R1", "bt/algos.py", cls, name, src, "documented-behaviour", "%s.%s: %s" % (cls, name, what),
+                        no_inline=("_set_risk_recursive", "_get_target_risk") if name != "_set_risk_recursive" else ("_set_risk_recursive",), limit=14)
